@@ -3,10 +3,7 @@ package main
 
 import (
 	"verif/harness/internal/core"
-	_ "verif/harness/internal/engf"
 	_ "verif/harness/internal/engg"
-	_ "verif/harness/internal/engk"
-	_ "verif/harness/internal/engs"
 )
 
 func main() { core.Main() }
